@@ -1,9 +1,9 @@
-#!/venv/bin/python
+#!/usr/bin/env python3-vt
 import json, sys, os, glob
-sys.path.insert(0, "/verif/.deps")
+# run with python3-vt (the tooling venv has jsonschema); /verif/.deps holds wheels for /venv only
 import jsonschema
 schema = json.load(open("/root/.vp/EVIDENCE.schema.json"))
-for f in sorted(glob.glob("/verif/evidence/*.json")):
+for f in sorted(glob.glob("/verif/evidence/*.json") + glob.glob("/verif/evidence/thorough/*.json")):
     try:
         jsonschema.validate(json.load(open(f)), schema); print("ok  ", f)
     except Exception as e:
